@@ -81,7 +81,15 @@ def _main(a, prop, seed, t0):
     known = load_known(prop)
     jobs = [Obligation(ob.name, list(ax) + list(ob.assumptions), ob.goal, ob.prefix, ob.kind, None, ob.axgroups) for name, ob, ax in obls]
     # obligations of recorded findings are expected not to be discharged: give them a short budget
-    budgets = [(8 if (name in known and not name.endswith('~known-defect-shape')) else timeout) for name, ob, ax in obls]
+    # per-obligation budget from the solver time recorded when the baseline was written (an obligation that took 0.1 s is not given 4 x 60 s before it is
+    # reported as not discharged; obligations without a record get the full budget); undecided baseline obligations get a second, larger attempt below
+    try: base_times = json.load(open(os.path.join(ROOT, 'baseline', f'{prop}.times.json')))
+    except Exception: base_times = {}
+    def budget_of(name):
+        if name in known and not name.endswith('~known-defect-shape'): return 8
+        if name in base_times: return max(12, min(timeout, int(8 * base_times[name]) + 1))
+        return timeout
+    budgets = [budget_of(name) for name, ob, ax in obls]
     res = solve.discharge(jobs, timeout=timeout, budgets=budgets)
     # a baseline obligation that came back undecided (not refuted) gets one more attempt with a larger budget and fewer parallel solvers:
     # verdicts must not flip because the machine was busy (a refuted obligation is never retried)
@@ -140,6 +148,10 @@ def _main(a, prop, seed, t0):
     if a.write_baseline:
         os.makedirs(os.path.dirname(base_path), exist_ok=True)
         json.dump(sorted(n for n in names if n not in failed), open(base_path, 'w'), indent=0)
+        tms = {}
+        for (name, ob, _), r in zip(obls, res):
+            if ob.kind != 'canary' and r['result'] == 'unsat': tms[name] = round(max(tms.get(name, 0.0), r['wall']), 2)
+        json.dump(tms, open(os.path.join(ROOT, 'baseline', f'{prop}.times.json'), 'w'), indent=0, sort_keys=True)
         print(f"baseline written: {len(names)-len(failed)} proved obligation names ({len(failed)} failed not listed)")
     baseline = set(json.load(open(base_path))) if os.path.exists(base_path) else set()
     missing = sorted(baseline - set(names))          # proved before, not even generated now
